@@ -27,7 +27,7 @@ try:
 except ImportError:
     tqdm = None
 
-from emg3d import io, solver, utils
+from emg3d import electrodes, io, solver, utils
 
 
 def process_map(fn, *iterables, max_workers, **kwargs):
@@ -229,13 +229,22 @@ def layered(inp):
     method = lopts.pop('method')
     lopts['return_imat'] = True
 
+    # Source coordinates; finite dipoles are defined by their end points
+    # (empymod-format [x1, x2, y1, y2, z1, z2]).
+    src_coordinates = src.coordinates
+    if src_coordinates.shape == (2, 3):
+        src_coordinates = src_coordinates.ravel('F')
+    elif src_coordinates.shape == (5, ) and hasattr(src, '_length'):
+        src_coordinates = electrodes.point_to_dipole(
+                src_coordinates, src.length).ravel('F')
+
     # Collect rec-independent empymod options.
     empymod_opts = {
         # User input ({src;rec}pts, {h;f}t, {h;f}targ, xdirect, loop, verb).
         **empymod_opts,
         #
         # Source properties, same for all receivers.
-        'src': src.coordinates,
+        'src': src_coordinates,
         'msrc': src.xtype != 'electric',
         'strength': src.strength,
         #
